@@ -2,6 +2,7 @@ package h
 
 import (
 	"context"
+	"encoding/binary"
 	"encoding/json"
 	"errors"
 	"fmt"
@@ -74,6 +75,11 @@ func genOp(r *rand.Rand, prop, tier string) simcore.Case {
 		cs.Cfg["ops2"] = pick(1, 2, 2, 3, 4)
 		cs.Cfg["reuse"] = pick(0, 0, 1)
 		cs.Cfg["ackorder"] = int64(r.IntN(24))
+		if r.IntN(2) == 0 { // a second rescale, from the first checkpoint of the rescaled operators
+			cs.Cfg["ops3"] = pick(1, 1, 2, 3)
+			cs.Cfg["reuse2"] = pick(0, 0, 1)
+			cs.Cfg["ackorder2"] = int64(r.IntN(24))
+		}
 		// pre-checkpoint state must reach SST files and the base level in several
 		// operators: small memtables, eager (major) compaction
 		if r.IntN(4) != 0 {
@@ -104,6 +110,10 @@ func genOp(r *rand.Rand, prop, tier string) simcore.Case {
 	if prop == "C06" || prop == "C09" {
 		rounds = 2
 		perRound = 6 + r.IntN(30)
+		if cs.Cfg["ops3"] > 0 {
+			rounds = 3
+			perRound = 6 + r.IntN(20)
+		}
 	}
 	if tier == "thorough" {
 		perRound = 3 + r.IntN(40)
@@ -457,6 +467,7 @@ func bodyOp(c *sim.Ctx) {
 	defer func() {
 		dkv.VerifTuneOptions, operator.VerifTimerCacheSize, storage.VerifFileSystemFactory = nil, nil, nil
 	}()
+	debugDisk = disk
 	senders := int(c.Cfg("senders", 1))
 	kgs := int(c.Cfg("kgs", 8))
 	nOps := int(c.Cfg("ops", 1))
@@ -605,11 +616,22 @@ func bodyOp(c *sim.Ctx) {
 		return !failed && !c.Violated()
 	}
 
-	phase1Ckpt := maxCkpt
-	rescale := (prop == "C06" || prop == "C09") && maxCkpt >= 2
-	if rescale {
-		phase1Ckpt = maxCkpt - 1
+	// rescales: a chain of restores into other operator sets, each from the last checkpoint
+	// of the phase before it (a second one merges / splits what the first one distributed)
+	type rescaleStep struct {
+		n      int
+		reuse  bool
+		order  int64
+		prefix string
 	}
+	var chain []rescaleStep
+	if (prop == "C06" || prop == "C09") && maxCkpt >= 2 {
+		chain = append(chain, rescaleStep{int(c.Cfg("ops2", 1)), c.Cfg("reuse", 0) == 1, c.Cfg("ackorder", 0), "opB"})
+		if n3 := int(c.Cfg("ops3", 0)); n3 > 0 && maxCkpt >= 3 {
+			chain = append(chain, rescaleStep{n3, c.Cfg("reuse2", 0) == 1, c.Cfg("ackorder2", 0), "opC"})
+		}
+	}
+	phase1Ckpt := maxCkpt - uint64(len(chain))
 	if !runPhase(phase1Ckpt) {
 		return
 	}
@@ -667,19 +689,27 @@ func bodyOp(c *sim.Ctx) {
 	}
 
 	// --- phase 2 (C06): rescale from the last checkpoint of phase 1 ---
-	if rescale {
+	for ri, step := range chain {
+		fromCkpt := phase1Ckpt + uint64(ri)
+		toCkpt := fromCkpt + 1
 		w.mu.Lock()
-		recs := append([]*ackRec(nil), w.acks[phase1Ckpt]...)
+		recs := append([]*ackRec(nil), w.acks[fromCkpt]...)
 		w.mu.Unlock()
 		// any permutation of the recorded operator checkpoints
-		pr := rand.New(rand.NewPCG(uint64(c.Cfg("ackorder", 0)), 3))
+		pr := rand.New(rand.NewPCG(uint64(step.order), 3))
 		pr.Shuffle(len(recs), func(i, j int) { recs[i], recs[j] = recs[j], recs[i] })
-		jc := &snapshotpb.JobCheckpoint{Id: phase1Ckpt}
+		jc := &snapshotpb.JobCheckpoint{Id: fromCkpt}
 		for _, a := range recs {
 			jc.OperatorCheckpoints = append(jc.OperatorCheckpoints, a.ack)
 		}
-		n2 := int(c.Cfg("ops2", 1))
-		reuse := c.Cfg("reuse", 0) == 1
+		if ri > 0 && w.sourcesHoldForeignKeys(recs) {
+			// triage tag for the known finding "tables shared by an earlier restore carry stale
+			// copies of keys their operator does not own" (DESIGN.md section 15)
+			c.AddTag("a source checkpoint of this restore holds keys outside its operator's range, left by an earlier restore")
+			c.Probe("second-rescale-with-foreign-keys")
+		}
+		n2 := step.n
+		reuse := step.reuse
 		old := w.assembly
 		ids2 := make([]string, n2)
 		for i := range ids2 {
@@ -687,7 +717,7 @@ func bodyOp(c *sim.Ctx) {
 				ids2[i] = old[i] // the same operator process is redeployed
 				c.Probe("operator-redeployed-in-place")
 			} else {
-				ids2[i] = fmt.Sprintf("opB%d", i)
+				ids2[i] = fmt.Sprintf("%s%d", step.prefix, i)
 				w.startOperator(ids2[i])
 			}
 		}
@@ -723,10 +753,17 @@ func bodyOp(c *sim.Ctx) {
 			return
 		}
 		c.Probe(fmt.Sprintf("rescale-%dto%d", len(old), n2))
-		if !runPhase(maxCkpt) || !checkAcks2(w, c, prop, maxCkpt, ids2) {
+		if ri == 1 {
+			c.Probe("second-rescale")
+		}
+		if !runPhase(toCkpt) || !checkAcks2(w, c, prop, toCkpt, ids2) {
 			return
 		}
-		if c.Cfg("gc", 0) == 1 {
+		// checkpoints of this phase are verified before a later restore may rewrite documents
+		if !verifyNew() {
+			return
+		}
+		if c.Cfg("gc", 0) == 1 && ri == len(chain)-1 {
 			// the job announces that only the new checkpoint has to be retained: the
 			// restored (composite) checkpoint and with it the last references to some
 			// shared tables go away
@@ -921,4 +958,54 @@ func sortedKeysAny[V any](m map[string]V) []string {
 	}
 	sort.Strings(ks)
 	return ks
+}
+
+// sourcesHoldForeignKeys: does a table referenced by one of these operator checkpoints
+// hold an entry whose key group lies outside the range that operator reported? (read from
+// the checkpoint documents and the table files, decoded independently)
+func (w *opWorld) sourcesHoldForeignKeys(recs []*ackRec) bool {
+	for _, a := range recs {
+		raw, ok := w.disk.ReadRaw(a.ack.DkvFileUri)
+		if !ok {
+			continue
+		}
+		var doc struct {
+			Checkpoints []struct {
+				ID     uint64 `json:"id"`
+				Levels [][]struct {
+					URI string
+				} `json:"levels"`
+			} `json:"checkpoints"`
+		}
+		if json.Unmarshal(raw, &doc) != nil {
+			continue
+		}
+		rng := a.ack.KeyGroupRange
+		for _, cp := range doc.Checkpoints {
+			if cp.ID != a.ack.CheckpointId {
+				continue
+			}
+			for _, level := range cp.Levels {
+				for _, t := range level {
+					b, ok := w.disk.ReadRaw(t.URI)
+					if !ok {
+						continue
+					}
+					ents, err := decodeTableFile(b)
+					if err != nil {
+						continue
+					}
+					for _, e := range ents {
+						if len(e.key) >= 2 {
+							g := int32(binary.BigEndian.Uint16([]byte(e.key[:2])))
+							if g < rng.Start || g >= rng.End {
+								return true
+							}
+						}
+					}
+				}
+			}
+		}
+	}
+	return false
 }
